@@ -387,17 +387,50 @@ class DecimalFieldFormat(AbstractFieldFormat):
     def __init__(self, field_name, is_allowed_to_be_empty, length_text, rule, data_format, empty_value=None):
         super().__init__(field_name, is_allowed_to_be_empty, length_text, "", data_format, empty_value)
         assert rule is not None, 'to specify "no rule" use "" instead of None'
-        if data_format.format in (data.FORMAT_DELIMITED, data.FORMAT_FIXED):
-            self.decimal_separator = data_format.decimal_separator
-            self.thousands_separator = data_format.thousands_separator
-        else:
-            # Spreadsheet formats have no separator properties; cells hold plain numbers.
-            self.decimal_separator = "."
-            self.thousands_separator = ""
+        # Separators explicitly set for this field; None means: use the ones of the data format.
+        self._decimal_separator = None
+        self._thousands_separator = None
         self.valid_range = ranges.DecimalRange(rule, ranges.DEFAULT_DECIMAL_RANGE_TEXT)
 
         self._precision = self.valid_range.precision
         self._scale = self.valid_range.scale
+
+    @property
+    def decimal_separator(self):
+        """
+        The decimal separator, by default the one of the data format even if it is set only after the field has
+        been declared.
+        """
+        if self._decimal_separator is not None:
+            result = self._decimal_separator
+        elif self.data_format.format in (data.FORMAT_DELIMITED, data.FORMAT_FIXED):
+            result = self.data_format.decimal_separator
+        else:
+            # Spreadsheet formats have no separator properties; cells hold plain numbers.
+            result = "."
+        return result
+
+    @decimal_separator.setter
+    def decimal_separator(self, new_decimal_separator):
+        self._decimal_separator = new_decimal_separator
+
+    @property
+    def thousands_separator(self):
+        """
+        The thousands separator, by default the one of the data format even if it is set only after the field has
+        been declared.
+        """
+        if self._thousands_separator is not None:
+            result = self._thousands_separator
+        elif self.data_format.format in (data.FORMAT_DELIMITED, data.FORMAT_FIXED):
+            result = self.data_format.thousands_separator
+        else:
+            result = ""
+        return result
+
+    @thousands_separator.setter
+    def thousands_separator(self, new_thousands_separator):
+        self._thousands_separator = new_thousands_separator
 
     def sql_ansi_type(self):
         return ("decimal", self._scale, self._precision)
